@@ -192,8 +192,15 @@ func step(st, input, output interface{}) (bool, interface{}) {
 	case "lookupNE":
 		t, ok := m.cache[in.ID]
 		if ok && m.ents[t].expired(in.Now) {
+			// noticing that a session has expired drops it and every route to it, as invalidation does
+			// (until fix 1f91d9f cedar left the routes behind here, and this model had been written to match)
 			n := m.clone()
 			delete(n.cache, in.ID)
+			for k, id := range n.cmd {
+				if id == in.ID {
+					delete(n.cmd, k)
+				}
+			}
 			return out.Tok == -1, n
 		}
 		return out.Tok == lookup(in.ID), m
